@@ -51,9 +51,9 @@ def demo(tree, path):
     return r.returncode, r.stdout.strip().splitlines()[-1:] if r.stdout.strip() else []
 
 
-def do_import(pid, m):
-    src = '/tmp/wt/%s.out/%s' % (pid, m)
-    name = '%s-%s' % (pid, m)
+def do_import(pid, m, srcroot='/tmp/wt', as_name=None):
+    src = '%s/%s.out/%s' % (srcroot, pid, m)
+    name = '%s-%s' % (pid, as_name or m)
     dst = os.path.join(SEEDED, name)
     for f in ('patch.diff', 'demo.py', 'meta.json'):
         assert os.path.exists(os.path.join(src, f)), 'missing ' + f
@@ -127,7 +127,8 @@ def do_run(name, tier='quick', ids=None, seed=None):
 if __name__ == '__main__':
     cmd = sys.argv[1]
     if cmd == 'import':
-        sys.exit(0 if do_import(sys.argv[2], sys.argv[3]) else 1)
+        # import <ID> <mN> [srcroot] [as-name]
+        sys.exit(0 if do_import(*sys.argv[2:6]) else 1)
     elif cmd == 'run':
         tier = sys.argv[3] if len(sys.argv) > 3 else 'quick'
         do_run(sys.argv[2], tier, sys.argv[4:] or None)
